@@ -248,9 +248,9 @@ func constTerm(e *Engine, c *ssa.Const) (Sc, bool) {
 func keyMatch(e *Engine, k Sc, c *ssa.Const) string {
 	if k.S == SStr {
 		s := constant.StringVal(c.Value)
-		parts := []string{fmt.Sprintf("(= (str.len %s) %d)", k.T, len(s))}
+		parts := []string{fmt.Sprintf("(= (gs.len %s) %d)", k.T, len(s))}
 		for i := 0; i < len(s); i++ {
-			parts = append(parts, fmt.Sprintf("(= (str.at %s %d) %d)", k.T, i, s[i]))
+			parts = append(parts, fmt.Sprintf("(= (gs.at %s %d) %d)", k.T, i, s[i]))
 		}
 		return and(parts...)
 	}
